@@ -24,6 +24,8 @@ def klass(n):
         return "os"
     if n.startswith("math/rand.") or n.startswith("(*math/rand.") or n.startswith("math/rand/v2"):
         return "prng"
+    if n == "(*math/big.Int).Rand":
+        return "prng"      # draws from the *math/rand.Rand it is handed: a generator created elsewhere (package level) is used here
     if n == "time.Now":
         return "clock"
     return "lib"
